@@ -1846,8 +1846,12 @@ double Analyser::AnalyserImpl::powerValue(const AnalyserEquationAstPtr &ast,
 
     case AnalyserEquationAst::Type::CI: {
         auto initialValue = ast->variable()->initialValue();
+        double value;
 
-        if (initialValue.empty()) {
+        if (!convertToDouble(initialValue, value)) {
+            // There is no initial value, or it is not a number (e.g., it is
+            // the name of a variable).
+
             powerData.mExponentValueAvailable = false;
 
             return NAN;
@@ -1855,7 +1859,7 @@ double Analyser::AnalyserImpl::powerValue(const AnalyserEquationAstPtr &ast,
 
         powerData.mExponentValueChangeable = true;
 
-        return std::stod(initialValue);
+        return value;
     }
     case AnalyserEquationAst::Type::CN:
         return std::stod(ast->value());
